@@ -58,6 +58,12 @@ CHECKS["C13"] = dict(engine="ahofilter", design="4 C13", technique="regular-lang
          "Counterexample words are confirmed on the real regex and real get_extractors before they count. In addition one shortest accepted word per extractor, generated "
          "documents and random sub-lists are run through AhocorasickTokenizer and the reference Tokenizer and TLC judges matching-subset-selected and stream equality."),
    note="Trusted for passing verdicts: the regex->NFA translation and the AC table construction in harness/regex2nfa.py (validated by witness words in both directions); anchors treated as epsilon.")
+CHECKS["C15"] = dict(engine="purity", design="4 C15", technique="TLA+ model checking of Purity.tla (threads x calls x hash-seed permutation) + replay of every call-level history in fresh processes under different PYTHONHASHSEED + TLC trace validation",
+   text=("Purity.tla models a process (hash seed = iteration order of a set of extractors), the shared default tokenizer (only mutable shared state: the compiled-pattern cache) "
+         "and two threads whose calls are four pre-emptible steps; TLC checks that every completed call returns F(text) for every interleaving and call list (and shows the two "
+         "regressions SetOrder / SharedSel violate it). Every call-level history TLC enumerates is replayed with real threads in fresh interpreters under 8 (thorough 32) hash seeds, "
+         "texts bound to a corpus containing every text found with unmerged equal-span candidates; TLC judges each recorded call against the fresh single-threaded baseline."),
+   note="Trusted: TLC + Json; thread interleavings inside a call are free-running (1 us switch interval), not enumerated; editions compared as sets; digest comparison (sha1/64 bit) of serialised results.")
 NA_REASON = "check not built yet (work in progress; see DESIGN.md section 10 build order)"
 checks = []
 for p in props:
@@ -83,6 +89,8 @@ m = {"version": 1,
               "serves_properties": ["C20"], "kind_free_text": "TLA+ spec, TLC model checking, exhaustive replay, TLC trace validation"},
              {"name": "ahofilter", "path": "spec/RegexIncl.tla spec/Trace_AhoFilter.tla harness/regex2nfa.py harness/chk_aho.py harness/drv_aho.py",
               "serves_properties": ["C13"], "kind_free_text": "regex->NFA translation, TLC product reachability, TLC-judged differential traces"},
+             {"name": "purity", "path": "spec/Purity.tla spec/MC_Purity.tla spec/Trace_Purity.tla harness/chk_purity.py harness/drv_purity.py",
+              "serves_properties": ["C15"], "kind_free_text": "TLA+ spec, TLC model checking, history replay across processes / hash seeds / threads, TLC trace validation"},
              {"name": "annotate", "path": "spec/Annotate.tla spec/SpanUpdater.tla spec/MC_Annotate.tla spec/MC_SpanUpdater.tla spec/Trace_Annotate.tla spec/Trace_SpanUpdater.tla harness/chk_annotate.py harness/drv_annotate.py",
               "serves_properties": ["C09", "C10", "C11"], "kind_free_text": "TLA+ spec, TLC model checking, configuration replay, TLC trace validation"}],
  "checks": checks,
